@@ -364,6 +364,10 @@ func runC02(w *World) {
 		return
 	}
 	p := s.P
+	if !refuse {
+		s.PriorSession(w)
+	}
+	nopen0, nest0 := p.Plug.NOpen, p.Plug.NEst
 	c := s.E.OpenConn(p, dir, time.Minute)
 	if c == nil {
 		w.HarnessError("C02: no connection")
@@ -412,14 +416,14 @@ func runC02(w *World) {
 			w.Violate("C02/not-closed/"+fl, "connection still open after refusing the OPEN")
 			return
 		}
-		if p.Plug.NOpen != 0 {
+		if p.Plug.NOpen != nopen0 {
 			w.Violate("C02/onopen-for-bad-open/"+fl, "OnOpenMessage was invoked for an unacceptable OPEN (%s)", desc)
 			return
 		}
 		// it must never become Established, even if the remote insists
 		c.Deliver(KeepaliveFrame())
 		w.Quiesce()
-		if p.Plug.NEst != 0 {
+		if p.Plug.NEst != nest0 {
 			w.Violate("C02/established-after-bad-open/"+fl, "session reported Established after an unacceptable OPEN (%s)", desc)
 			return
 		}
@@ -427,8 +431,8 @@ func runC02(w *World) {
 		return
 	}
 	// acceptable: OnOpenMessage exactly once, with the sender's id and exactly the capabilities carried
-	if p.Plug.NOpen != 1 {
-		w.Violate("C02/acceptable-open-refused/onopen-count", "acceptable OPEN (%s): OnOpenMessage invoked %d times; corebgp wrote %s", desc, p.Plug.NOpen, descFrames(fs))
+	if p.Plug.NOpen != nopen0+1 {
+		w.Violate("C02/acceptable-open-refused/onopen-count", "acceptable OPEN (%s): OnOpenMessage invoked %d times; corebgp wrote %s", desc, p.Plug.NOpen-nopen0, descFrames(fs))
 		return
 	}
 	var ocb *CB
@@ -464,7 +468,7 @@ func runC02(w *World) {
 		}
 		c.Deliver(KeepaliveFrame())
 		w.Quiesce()
-		if p.Plug.NEst != 0 {
+		if p.Plug.NEst != nest0 {
 			w.Violate("C02/established-after-refusal", "session Established although OnOpenMessage returned a NOTIFICATION")
 		}
 		s.E.FinishRun()
@@ -476,8 +480,8 @@ func runC02(w *World) {
 	}
 	c.SendSeg(KeepaliveFrame())
 	w.Quiesce()
-	if p.Plug.NEst != 1 {
-		w.Violate("C02/acceptable-open-refused/not-established", "acceptable OPEN (%s) and KEEPALIVE exchanged but OnEstablished count is %d; frames %s", desc, p.Plug.NEst, descFrames(NewFrames(c, before)))
+	if p.Plug.NEst != nest0+1 {
+		w.Violate("C02/acceptable-open-refused/not-established", "acceptable OPEN (%s) and KEEPALIVE exchanged but OnEstablished count is %d; frames %s", desc, p.Plug.NEst-nest0, descFrames(NewFrames(c, before)))
 		return
 	}
 	s.E.FinishRun()
